@@ -121,19 +121,32 @@ def resS : Res → Sexp
 
 def keyS (k : Key) : Sexp := .list [optS k.absd, ofBool k.sub, ofNat k.base]
 
-def lstateS (s : LState) : Sexp :=
-  .list [.list (s.cache.items.map fun (k, t) => .list [keyS k, ofNat t.obj]),
-         ofNat s.cbLog.length, ofNat s.parsed.length, ofNat s.lock]
+def utdS (s : LState) (keys : List Key) : Sexp :=
+  .list (keys.filterMap fun k => (s.utd k).map fun u =>
+    match u with
+    | .never => .list [keyS k, .atom "N"]
+    | .mtime loc m => .list [keyS k, .list [ofNat loc.dir, ofBool loc.sub, ofNat loc.base, ofNat m]])
 
-def histRun (cfg : Cfg) : World → List HOp → List Sexp
-  | _, [] => []
-  | w, op :: ops =>
+/-- cache (most recent first, with identities), callbacks, parses, lock depth, and `_uptodate`
+    over the keys requested so far (in order of first request) -/
+def lstateS (s : LState) (keys : List Key) : Sexp :=
+  .list [.list (s.cache.items.map fun (k, t) => .list [keyS k, ofNat t.obj]),
+         ofNat s.cbLog.length, ofNat s.parsed.length, ofNat s.lock, utdS s keys]
+
+def histRun (cfg : Cfg) : World → List Key → List HOp → List Sexp
+  | _, _, [] => []
+  | w, keys, op :: ops =>
     let (w', o) := hstep cfg w op
+    let keys' := match op with
+      | .load r => match resolve cfg.path.isEmpty r with
+        | some k => if keys.contains k then keys else keys ++ [k]
+        | none => keys
+      | _ => keys
     let here : Sexp := match op, o with
-      | .load _, some res => .list [resS res, lstateS w'.ls]
+      | .load _, some res => .list [resS res, lstateS w'.ls keys']
       | .load _, none => .atom "unmodelled"
       | _, _ => .atom "U"
-    here :: histRun cfg w' ops
+    here :: histRun cfg w' keys' ops
 end
 
 def handle : List Sexp → Option Sexp
@@ -141,7 +154,7 @@ def handle : List Sexp → Option Sexp
       let cap ← cap.toNat?; let ar ← ar.toBool?; let cb ← cb.toBool?
       let path ← path.mapM entry?
       let ops ← ops.mapM hop?
-      pure (.list (histRun ⟨path, ar, cap, cb⟩ (Genshi.Loader.World.init cap) ops))
+      pure (.list (histRun ⟨path, ar, cap, cb⟩ (Genshi.Loader.World.init cap) [] ops))
   | [.atom "lrutrace", cap, nkeys, .list ops] => do
       let cap ← cap.toNat?; let nkeys ← nkeys.toNat?
       let ops ← ops.mapM op?
